@@ -10,7 +10,9 @@ def _cells():
     return [np.diag([3.0, 3.5, 4.0]), np.array([[3.1, 0.2, -0.4], [0.7, 2.9, 0.5], [-0.3, 0.6, 4.2]]), np.array([[2.0, 0, 0], [4.0, 2.0, 0], [2.0, 6.0, 2.5]]),
             np.array([[1.0, 0, 0], [0, 1.0, 0], [0, 0, 12.0]]),
             # left-handed cell; cell whose third vector leans far over the other two
-            np.array([[0, 3.5, 0], [3.0, 0, 0], [0, 0, 4.0]]), np.array([[3.0, 0, 0], [0, 3.0, 0], [4.0, 1.0, 3.0]])]
+            np.array([[0, 3.5, 0], [3.0, 0, 0], [0, 0, 4.0]]), np.array([[3.0, 0, 0], [0, 3.0, 0], [4.0, 1.0, 3.0]]),
+            # obtuse cell: |a+b+c| is shorter than distances inside the cell
+            np.array([[4.0, 0, 0], [0, 6.0, 0], [0, -5.0, 3.0]])]
 
 
 def brute_mic(pos, cell, pbc, R=6):
@@ -77,7 +79,8 @@ def replay_c10():
                     return {"reproduced": True, "failing_inputs": fails}
             # the same tables through get_distances (atoms spread over the cell, and atoms bunched in one corner of it)
             from ase import Atoms
-            for sp2 in (sp, 0.08 + 0.4 * sp, 0.55 + 0.4 * sp):
+            edge = np.array([[0.05, 0.03, 0.05], [0.05, 0.97, 0.05], [0.5, 0.5, 0.5]])
+            for sp2 in (sp, 0.08 + 0.4 * sp, 0.55 + 0.4 * sp, edge):
                 pos2 = sp2 @ cell
                 ref2 = brute_mic(pos2, cell, pbc, R=7 if cell[2, 2] < 10 else 3)
                 try:
@@ -190,6 +193,14 @@ def replay_c16():
                 bad.append("get_matches substitutions %s: expected the He atom for queries 0 and 2 only" % [None if x is None else x.index for x in sb])
             if len(vac) != 1:
                 bad.append("get_matches reports %d vacancies, expected 1 (query 3)" % len(vac))
+            if pbc[0]:
+                at2 = Atoms(numbers=[1, 2], positions=[[2.0, 1.0, 1.0], [0.1, 1.0, 1.0]], cell=cell, pbc=pbc)
+                cl2 = g.get_cell_list(at2.get_positions(), cell, np.array(pbc), tol, tol)
+                m2, s2, v2, c2 = g.get_matches(at2, cl2, np.array([[3.9, 1.0, 1.0]]), np.array([1]), tol)
+                if s2[0] is None or s2[0].index != 1:
+                    bad.append("substitution through the cell boundary not reported")
+                elif tuple(int(v) for v in np.rint(c2[0])) != (1, 0, 0):
+                    bad.append("substitution found in the neighbouring cell (He at 0.1 + a) reports the cell offset %s instead of (1, 0, 0)" % (tuple(int(v) for v in np.rint(c2[0])),))
             if pbc[0] and tuple(int(v) for v in np.rint(ci[2])) == tuple(int(v) for v in np.rint(ci[0])):
                 bad.append("cell offset of the query shifted by a lattice vector equals the unshifted one")
         except Exception as e:  # noqa
